@@ -1864,7 +1864,11 @@ StorageReflectSession :: CloneDataNodeSubtree(const DataNode & node, const Strin
          for (uint32 i=0; i<idxLen; i++)
          {
             const String & nodeName = (*index)[i]()->GetNodeName();
-            if (clone->HasChild(nodeName)) MRETURN_ON_ERROR(clone->InsertIndexEntryAt(writeIdxCounter++, this, nodeName));
+            if (clone->HasChild(nodeName))
+            {
+               (void) clone->RemoveIndexEntry(nodeName, this);  // (clone) may have existed already and have this child in its index (eg when we clone onto the same destination twice)
+               MRETURN_ON_ERROR(clone->InsertIndexEntryAt(writeIdxCounter++, this, nodeName));
+            }
          }
       }
       else return B_DATA_NOT_FOUND;
